@@ -49,11 +49,13 @@ pub struct ClusterDomain {
     nodes: Vec<NodeRt>,
     ops: Vec<(usize, Issued)>,
     fake: Option<(Server, SocketAddr)>,
+    /// nodes whose address currently refuses connections (crashed, still listed in the membership)
+    down: Vec<usize>,
 }
 
 impl ClusterDomain {
     pub fn new(_params: &[&str]) -> Self {
-        Self { nodes: Vec::new(), ops: Vec::new(), fake: None }
+        Self { nodes: Vec::new(), ops: Vec::new(), fake: None, down: Vec::new() }
     }
 }
 
@@ -329,6 +331,15 @@ impl Domain for ClusterDomain {
                 *self.nodes[u(1)].directive.lock() = Directive::Fail;
                 "ok".into()
             },
+            "unreach" => {
+                // node j has crashed but is still selected: connections to it are refused
+                if !self.down.contains(&u(1)) { self.down.push(u(1)); }
+                "ok".into()
+            },
+            "reach" => {
+                self.down.retain(|x| *x != u(1));
+                "ok".into()
+            },
             "clearfail" => {
                 *self.nodes[u(1)].directive.lock() = Directive::None;
                 "ok".into()
@@ -355,7 +366,10 @@ impl Domain for ClusterDomain {
                 let is_put = t[0] == "wput";
                 let data = if is_put { gen_data(t[4]) } else { vec![] };
                 let n = &self.nodes[i];
-                let addrs: Nodes = targets.iter().map(|j| self.nodes[*j].addr).collect();
+                let addrs: Nodes = targets
+                    .iter()
+                    .map(|j| if self.down.contains(j) { crate::rpc::free_addr() } else { self.nodes[*j].addr })
+                    .collect();
                 let (ts, res, issued) = rt.block_on(async {
                     let ts = n.clock.get_time().await;
                     let ks = n.group.get_or_create_keyspace(KS).await;
